@@ -2598,11 +2598,16 @@ define_struct_type(InterrogateType &itype, CPPStructType *cpptype,
   // that the type hierarchy stays connected where an intermediate class is
   // not published.
   auto record_base_classes = [&]() {
-    if (itype._derivations.empty()) {
+    // (Recording a base class may record its base classes in turn; see below
+    // for why that is not followed to any depth.)
+    static int unpublished_base_depth = 0;
+    if (itype._derivations.empty() && unpublished_base_depth < 100) {
       for (const CPPStructType::Base &base : cpptype->_derivation) {
         if (base._vis <= V_public) {
           CPPType *base_type = TypeManager::resolve_type(base._base, cpptype->_scope);
+          ++unpublished_base_depth;
           TypeIndex base_index = get_type(base_type, false);
+          --unpublished_base_depth;
           if (base_index != 0) {
             InterrogateType::Derivation d;
             d._flags = 0;
